@@ -14,7 +14,7 @@ use serde::{Deserialize, Serialize};
 use crate::engine::bytespec::show;
 use crate::engine::{panics, Fail};
 
-pub const POOL_LEN: usize = 1 << 18;
+pub const POOL_LEN: usize = 1 << 22;
 const PLACEHOLDER: u8 = 0xEE;
 
 /// Harness-owned bytes that outlive every case; values stay below 0x80 so
@@ -262,7 +262,11 @@ impl World {
                 if self.slots.len() < MAX_SLOTS {
                     let slices: Vec<&'static [u8]> = parts.iter().map(|(o, l)| pool_slice(*o, *l as u32)).collect();
                     let all: Vec<u8> = slices.concat();
-                    let io: OwningIovec<'static> = if *collect {
+                    let io: OwningIovec<'static> = if *collect && parts.len() % 2 == 1 {
+                        // FromIterator<&IoSlice>
+                        let owned: &'static [IoSlice<'static>] = Box::leak(slices.iter().map(|s| IoSlice::new(s)).collect::<Vec<_>>().into_boxed_slice());
+                        owned.iter().collect()
+                    } else if *collect {
                         slices.iter().map(|s| IoSlice::new(s)).collect()
                     } else {
                         OwningIovec::new_from_slices(slices.iter().map(|s| IoSlice::new(s)).collect(), None)
@@ -397,7 +401,7 @@ impl World {
             }
             Op::Ensure { slot, len } => {
                 let si = self.pick_slot(*slot);
-                self.slots[si].io.arena().ensure_capacity((*len as usize).min(300_000));
+                self.slots[si].io.arena().ensure_capacity((*len as usize).min(2 << 20));
             }
             Op::TakeArenaBack { slot } => {
                 let si = self.pick_slot(*slot);
@@ -468,7 +472,7 @@ impl World {
             Op::Hold { slot, off, len } => {
                 let si = self.pick_slot(*slot);
                 if self.held.len() < MAX_HELD {
-                    let b = pool_slice(*off, (*len).min(9000));
+                    let b = pool_slice(*off, if *len >= 500_000 { *len } else { (*len).min(9000) });
                     let mut src = b;
                     let anchored = self.slots[si]
                         .io
@@ -598,7 +602,15 @@ impl World {
                 let prefix: Vec<usize> = s.io.stable_prefix().iter().map(|x| x.len()).collect();
                 let want = (*k as usize).min(prefix.len());
                 let bytes: usize = prefix[..want].iter().sum();
-                let got = s.io.consumer().consume(*k as usize);
+                let got = if k % 2 == 1 && s.m.pending.is_empty() {
+                    // Through the StableIovec wrapper (DerefMut to ConsumingIovec).
+                    match s.io.stable_consumer() {
+                        Ok(mut stable) => stable.consume(*k as usize),
+                        Err(_) => return Err(fail("stable_consumer:arm", "stable_consumer() failed with no placeholder pending".to_string())),
+                    }
+                } else {
+                    s.io.consumer().consume(*k as usize)
+                };
                 if got != want {
                     return Err(fail("consume:count", format!("consume({k}) returned {got} with {} consumable slices", prefix.len())));
                 }
@@ -754,14 +766,18 @@ impl World {
             Err(v) if pending => same_slices(v, &prefix, si, "iovs() Err")?,
             other => return Err(fail("iovs:arm", format!("slot {si}: iovs() is_ok = {} with pending = {pending}", other.is_ok()))),
         }
-        match io.flatten() {
-            Ok(v) if !pending && v == vis => {}
-            Err(v) if pending && v == vis => {}
-            other => return Err(fail("flatten", format!("slot {si}: flatten() is_ok = {} (pending = {pending}) or its bytes differ from the stable prefix", other.is_ok()))),
-        }
-        match io.flatten_into(vec![0x42]) {
-            Ok(v) | Err(v) if v[0] == 0x42 && v[1..] == vis[..] => {}
-            _ => return Err(fail("flatten_into", format!("slot {si}: flatten_into does not append the stable prefix after the existing contents"))),
+        // With megabytes buffered the copying views are only exercised now and then.
+        let copy_views = remaining <= 300_000 || self.stats.ops % 8 == 0;
+        if copy_views {
+            match io.flatten() {
+                Ok(v) if !pending && v == vis => {}
+                Err(v) if pending && v == vis => {}
+                other => return Err(fail("flatten", format!("slot {si}: flatten() is_ok = {} (pending = {pending}) or its bytes differ from the stable prefix", other.is_ok()))),
+            }
+            match io.flatten_into(vec![0x42]) {
+                Ok(v) | Err(v) if v[0] == 0x42 && v[1..] == vis[..] => {}
+                _ => return Err(fail("flatten_into", format!("slot {si}: flatten_into does not append the stable prefix after the existing contents"))),
+            }
         }
         let front = io.front().map(|x| x.to_vec());
         if front != prefix.first().map(|x| x.to_vec()) {
@@ -777,7 +793,7 @@ impl World {
         let io = &mut s.io;
         match io.stable_consumer() {
             Ok(sc) if !pending => {
-                if sc.flatten() != vis || sc.iovs().len() != prefix_len(&vis, sc.iovs()) {
+                if (copy_views && sc.flatten() != vis) || sc.iovs().len() != prefix_len(&vis, sc.iovs()) {
                     return Err(fail("stable_consumer", format!("slot {si}: StableIovec views differ from the stable prefix")));
                 }
             }
@@ -1036,6 +1052,11 @@ fn size() -> impl Strategy<Value = u32> {
     ]
 }
 
+/// Sizes at and beyond the arena's largest regular chunk (1 MiB): rare, they make every later check expensive.
+fn huge_size() -> impl Strategy<Value = u32> {
+    prop_oneof![Just(1u32 << 20), Just((1 << 20) + 1), Just((1 << 20) - 1), (1u32 << 20) - 4096..(1u32 << 20) + 200_000, 500_000u32..600_000]
+}
+
 fn small_size() -> impl Strategy<Value = u32> {
     prop_oneof![5 => 1u32..9, 3 => 60u32..69, 2 => 250u32..262, 1 => Just(0u32)]
 }
@@ -1106,8 +1127,13 @@ pub fn op(mix: Mix) -> BoxedStrategy<Op> {
         1 => any::<u8>().prop_map(|idx| Op::HeldTake { idx }),
         2 => (any::<u8>(), slot()).prop_map(|(idx, slot)| Op::HeldPush { idx, slot }),
     ];
+    let huge = prop_oneof![
+        2 => (slot(), any::<u32>(), huge_size()).prop_map(|(slot, off, len)| Op::PushCopy { slot, off, len }),
+        1 => (slot(), huge_size()).prop_map(|(slot, len)| Op::Ensure { slot, len }),
+        1 => (slot(), any::<u32>(), huge_size()).prop_map(|(slot, off, len)| Op::Hold { slot, off, len }),
+    ];
     match mix {
-        Mix::General => prop_oneof![10 => push, 5 => patch, 7 => consume, 2 => arena, 2 => structure, 1 => held].boxed(),
+        Mix::General => prop_oneof![100 => push, 50 => patch, 70 => consume, 20 => arena, 20 => structure, 10 => held, 1 => huge].boxed(),
         Mix::Backpatch => prop_oneof![6 => small_push, 2 => push, 9 => patch, 6 => consume, 1 => arena, 1 => structure].boxed(),
         Mix::Memory => prop_oneof![8 => push, 3 => patch, 6 => consume, 3 => arena, 5 => structure, 6 => held].boxed(),
         Mix::Split => prop_oneof![9 => push, 5 => patch, 6 => consume, 1 => arena, 1 => held].boxed(),
